@@ -158,6 +158,23 @@ CLAIMS = {
             "latin_1/cp500; TLC decides that the IPM file is the writer file of Layout(dict(row)) and that every "
             "supplied cell comes back unchanged in the same row order.",
             TB + "CSV quoting is the csv module's on both sides; dateutil parses YYYY-MM-DD hh:mm:ss.", "3 C20"),
+    'C13': ("TLA+ spec (PinBlock.tla over nibbles; Des.tla / Aes.tla transcribed from FIPS 46-3 / 197 with "
+            "known-answer ASSUMEs) model-checked (MC_PinBlock) and evaluated by TLC on recorded to_bytes / from_bytes / "
+            "to_enc_bytes / from_enc_bytes calls (Trace_Pin)",
+            "TLC exhaustively checks PinOf(Iso0)=PinOf(Iso4)=pin and the block shapes for every PIN length 4..12 x PAN "
+            "13..19; recorded calls over all PIN lengths, digit values, PAN lengths, supplied and unsupplied fills (600 / "
+            "2000 consecutive blocks must not repeat a fill), TDES 16/24-byte and AES-128/192/256 keys are judged by "
+            "TLC: clear blocks against the nibble construction, ciphertexts against TDesEcb / AesEcb computed in TLA+.",
+            TB + "The technique is used here as an executable reference for one pure function (stated in DESIGN 4); "
+            "freshness of the fill is observed, not decided.", "3 C13"),
+    'C14': ("TLA+ spec (PinBlock.tla: Tsp, Decimalise, Pvv, Kcv, Combine, EncZmk over the TLA+ DES) model-checked "
+            "(MC_PinBlock DecInv, MC_KeyMgmt) and evaluated by TLC on recorded calls (Trace_Pin)",
+            "TLC exhaustively checks that decimalisation yields four decimal digits in order with 0..4 substituted "
+            "digits, and that Combine is order-independent and cancels duplicates; recorded calculate_pvv / to_pvv / "
+            "calculate_kcv / get_zone_master_key / get_enc_zone_master_key calls (PIN 4..12, PAN 12..19, index 0..9, "
+            "keys 8/16/24 bytes, component lists with permutations and duplicates, and a corpus of keys needing 1,2,3,4 "
+            "substituted digits) are recomputed by TLC.",
+            TB + "Hex strings returned by the library are projected to nibble values.", "3 C14"),
 }
 
 PENDING = "check not built yet in this round (specification under construction; see DESIGN.md section 3)"
